@@ -10,7 +10,8 @@ package streams
 //	           bytes the handler produced, no net/http framing on top)
 //	codeclaw   the codec laws the theorems assume, sampled against compress/gzip and the real brotli
 //	           encoder/decoder (labelled as a test, not a proof)
-//	kf.C06-*   fixed witness tables of the known findings (recomphdr cases)
+//	kf.C06-*   fixed witness tables of the known findings (recomphdr cases); kf.C06-a is the
+//	           repaired finding's table and runs as a regression stream (every case must pass)
 //
 // Bodies travel through the protocol in a *canonical codec-term form*: the harness peels real
 // gzip / brotli layers with independent decoders (compress/gzip, itchio/go-brotli/dec) and writes
@@ -470,6 +471,8 @@ func recompHdrStream(g *hx.Gen, id int) hx.Case {
 // ---------------------------------------------------------------------------------------------
 // known-finding witnesses
 
+// kfC06a: the former finding C06-a (gzip-class client, origin br: Brotli on top of Brotli), repaired
+// in util.GetRecompression; regression cases: the origin's br stream must arrive unchanged.
 var kfC06a = []hdrCase{
 	buildHdrCase(true, true, "gzip", "br", "text/html", nil, nil, true, false, br([]byte("hello world"), 5)),
 	buildHdrCase(true, true, "gzip, deflate", "br", "image/png", nil, []string{"Accept-Encoding"}, false, false, br([]byte(`{"k":1}`), 0)),
